@@ -143,6 +143,7 @@ type Agent struct {
 
 	gatherCandidateCancel func()
 	gatherCandidateDone   chan struct{}
+	gatherCycles          sync.WaitGroup // every gathering cycle, including superseded ones
 
 	connectionStateNotifier       *handlerNotifier
 	candidateNotifier             *handlerNotifier
@@ -555,9 +556,8 @@ func newAgentWithConfig(agent *Agent, opts ...AgentOption) (*Agent, error) {
 
 	agent.loop = taskloop.New(func() {
 		agent.gatherCandidateCancel()
-		if agent.gatherCandidateDone != nil {
-			<-agent.gatherCandidateDone
-		}
+		// A cycle superseded by Restart or GatherCandidates may still hold sockets.
+		agent.gatherCycles.Wait()
 
 		agent.removeUfragFromMux()
 		agent.deleteAllCandidates()
